@@ -126,6 +126,10 @@ func (b *bounds) lt(q, d *Poly, depth int) bool {
 					if b.lt(B, d, depth-1) {
 						return true
 					}
+					// q < B (strictly) and B <= d
+					if k <= -1 && b.ge0(d.Add(B, -1), depth-1) {
+						return true
+					}
 				}
 			}
 		}
@@ -316,7 +320,7 @@ func valInstr(t *Term, fallback ssa.Instruction) ssa.Instruction {
 func runC08(c *Ctx) {
 	R := c.R
 	R.Rule("row-major", "every index/span on the backing slice is Q1*width + Q0 with 0<=Q1<height and 0<=Q0<width (spans: 0<=Q0lo<=Q0hi<=width, same row), established on the path by guards, loop bounds or call-site obligations", 6)
-	R.Rule("callee-precondition", "internal callers of helpers/methods that need in-range coordinates establish them", 3)
+	R.Rule("callee-precondition", "internal callers of helpers/methods that need in-range coordinates establish them", 1)
 	R.Rule("alloc-size", "New2D/New2DFilled allocate width*height and store width/height in the matching fields", 2)
 	R.Rule("fill-rectangle", "Fill: first-row span, then copies to rows first+1..last inclusive, with first<=last and lo<=hi established", 1)
 	R.Rule("clone-detached", "Clone's backing slice is freshly allocated with the same length and dimensions", 1)
@@ -699,7 +703,7 @@ func runC08(c *Ctx) {
 		q1, q0 := splitBy(ToPoly(idx), W.Key())
 		return q1.Equal(ToPoly(&Term{Op: "param", N: 2, Fn: p.Fn})) && q0.Equal(ToPoly(&Term{Op: "param", N: 1, Fn: p.Fn}))
 	}
-	if fi := c.fn("accessors", "arrays.(Array2D).getUnchecked"); fi != nil {
+	if fi := c.P.Func("arrays.(Array2D).getUnchecked"); fi != nil { // optional helper: Get may address the cell itself
 		ps := allPaths[fi]
 		ok := len(ps) == 1 && len(ps[0].Rets) == 1
 		if ok {
@@ -708,7 +712,7 @@ func runC08(c *Ctx) {
 		}
 		R.Decide(ok, "accessors", fi.Name, "cell", c.pos(fi), "returns slice[x + y*width]", "does not return the cell at (x, y)")
 	}
-	if fi := c.fn("accessors", "arrays.(Array2D).setUnchecked"); fi != nil {
+	if fi := c.P.Func("arrays.(Array2D).setUnchecked"); fi != nil { // optional helper
 		ps := allPaths[fi]
 		ok := len(ps) == 1
 		if ok {
@@ -742,6 +746,35 @@ func runC08(c *Ctx) {
 			}
 			saw = true
 			calls := callsNamed(p, acc.helper)
+			if len(calls) == 0 {
+				// the cell addressed directly: slice[x + y*width] of the receiver
+				owner := paramOf(fi, 0)
+				if acc.nargs == 3 {
+					good := len(p.Rets) == 1
+					if good {
+						r := p.Rets[0]
+						good = r.Op == "load" && r.Args[0].Op == "iaddr" && x.ownerOfSlice(r.Args[0].Args[0]) != nil && cellIdx(p, x.resolve(r.Args[0].Args[1]), owner)
+					}
+					if !good {
+						ok, why = false, "does not return the cell at (x, y) (neither through "+acc.helper+" nor directly)"
+					}
+				} else {
+					n := 0
+					for i := range p.Events {
+						e := &p.Events[i]
+						if e.Kind == "store" && e.Addr.Op == "iaddr" && x.ownerOfSlice(e.Addr.Args[0]) != nil {
+							n++
+							if !cellIdx(p, x.resolve(e.Addr.Args[1]), owner) || !isParam(e.Val, 3) {
+								n = -99
+							}
+						}
+					}
+					if n != 1 {
+						ok, why = false, "does not store the value at the cell (x, y) (neither through "+acc.helper+" nor directly)"
+					}
+				}
+				continue
+			}
 			if len(calls) != 1 || len(calls[0].Args) != acc.nargs {
 				ok, why = false, "does not call "+acc.helper+" exactly once"
 				continue
@@ -755,7 +788,7 @@ func runC08(c *Ctx) {
 				ok, why = false, "does not return the cell's value"
 			}
 		}
-		R.Decide(ok && saw, "accessors", fi.Name, "delegates", c.pos(fi), "in range: exactly one "+acc.helper+" with its own arguments", why)
+		R.Decide(ok && saw, "accessors", fi.Name, "delegates", c.pos(fi), "in range: the cell (x, y), through "+acc.helper+" or directly", why)
 	}
 	if fi := c.fn("accessors", "arrays.New2DFilled"); fi != nil {
 		ok := false
@@ -1129,10 +1162,8 @@ func c08Extra(x *c08, funcs []*FuncInfo, allPaths map[*FuncInfo][]*Path) {
 					good = si != nil && ToPoly(si).Equal(ToPoly(dst.Args[1]))
 					// and that index is below height on this path
 					below := false
-					for _, cd := range p.Conds {
-						if pl, kind, isInt := cd.Rel().IntNorm(); isInt && kind == ">" && si != nil && pl.Equal(ToPoly(paramOf(fi, 1)).Add(ToPoly(si), -1)) {
-							below = true
-						}
+					if si != nil {
+						below = x.boundsOf(p, mk.Res).lt(ToPoly(si), ToPoly(paramOf(fi, 1)), 2)
 					}
 					if good && !below {
 						good = false
@@ -1155,49 +1186,81 @@ func c08Extra(x *c08, funcs []*FuncInfo, allPaths map[*FuncInfo][]*Path) {
 		ok, why := true, ""
 		loops := findLoops(ps)
 		var xs, ys *Counted
+		xFirst := int64(0)
 		for _, li := range loops {
 			ct := counted(li)
 			if ct == nil || ct.Step != 1 || ct.Op != "<" {
 				continue
 			}
-			if f, isC := ct.First.IsConst(); !isC || f != 0 {
+			f, isC := ct.First.IsConst()
+			if !isC {
 				continue
 			}
 			b := x.resolve(ct.Bound)
 			switch {
-			case isFieldLoad(b, x.fW, nil) || (b.Op == "field" && sameField(b.Obj, x.fW)):
-				xs = ct
-			case isFieldLoad(b, x.fH, nil) || (b.Op == "field" && sameField(b.Obj, x.fH)):
+			case (isFieldLoad(b, x.fW, nil) || (b.Op == "field" && sameField(b.Obj, x.fW))) && (f == 0 || f == 1):
+				xs, xFirst = ct, f
+			case (isFieldLoad(b, x.fH, nil) || (b.Op == "field" && sameField(b.Obj, x.fH))) && f == 0:
 				ys = ct
 			}
 		}
+		Wt := &Term{Op: "field", Args: []*Term{owner}, Obj: x.fW, Typ: types.Typ[types.Int]}
+		// cellPrinted: event i of p reads cell (cx, cy) and that value is what a later fmt.Fprint* prints
+		cellPrinted := func(p *Path, i int, cx, cy *Poly) (isCell, good bool) {
+			e := &p.Events[i]
+			var val *Term
+			switch {
+			case e.Kind == "call" && (strings.HasSuffix(e.Name, ".getUnchecked") || strings.HasSuffix(e.Name, "(Array2D).Get")) && len(e.Args) == 3:
+				isCell = true
+				if !ToPoly(e.Args[1]).Equal(cx) || !ToPoly(e.Args[2]).Equal(cy) {
+					return true, false
+				}
+				val = e.Res
+			case e.Kind == "store" && e.Addr.Op == "iaddr" && e.Addr.Args[0].Op == "alloc" && e.Val != nil:
+				v := stripIface(e.Val)
+				if v.Op == "load" && v.Args[0].Op == "iaddr" && x.ownerOfSlice(v.Args[0].Args[0]) != nil {
+					isCell = true
+					q1, q0 := splitBy(ToPoly(x.resolve(v.Args[0].Args[1])), Wt.Key())
+					if !q1.Equal(cy) || !q0.Equal(cx) {
+						return true, false
+					}
+					// this store is the variadic slot itself
+					for k := i; k < len(p.Events); k++ {
+						g := &p.Events[k]
+						if g.Kind == "call" && strings.HasPrefix(g.Name, "fmt.Fprint") && g.Args[len(g.Args)-1].ContainsKey(e.Addr.Args[0].Key()) {
+							return true, true
+						}
+					}
+					return true, false
+				}
+				return false, false
+			default:
+				return false, false
+			}
+			for j := i; j < len(p.Events); j++ {
+				f := &p.Events[j]
+				if f.Kind == "store" && f.Addr.Op == "iaddr" && stripIface(f.Val).Key() == val.Key() {
+					for k := j; k < len(p.Events); k++ {
+						g := &p.Events[k]
+						if g.Kind == "call" && strings.HasPrefix(g.Name, "fmt.Fprint") && g.Args[len(g.Args)-1].ContainsKey(f.Addr.Args[0].Key()) {
+							return true, true
+						}
+					}
+				}
+			}
+			return true, false
+		}
 		if xs == nil || ys == nil {
-			ok, why = false, "String is not a loop over 0 <= y < height around a loop over 0 <= x < width"
+			ok, why = false, "String is not a loop over 0 <= y < height around a loop over x < width (from 0, or from 1 with the first column printed before it)"
 		} else {
 			for _, p := range xs.Loop.Back {
 				n := 0
 				for i := p.LoopAt[xs.Loop.Hdr]; i < len(p.Events); i++ {
-					e := &p.Events[i]
-					if e.Kind == "call" && (strings.HasSuffix(e.Name, ".getUnchecked") || strings.HasSuffix(e.Name, "(Array2D).Get")) && len(e.Args) == 3 {
-						if ToPoly(e.Args[1]).Equal(ToPoly(xs.Idx)) && ToPoly(e.Args[2]).Equal(ToPoly(ys.Idx)) {
-							// and it is what gets printed
-							printed := false
-							for j := i; j < len(p.Events); j++ {
-								f := &p.Events[j]
-								if f.Kind == "store" && f.Addr.Op == "iaddr" && stripIface(f.Val).Key() == e.Res.Key() {
-									for k := j; k < len(p.Events); k++ {
-										g := &p.Events[k]
-										if g.Kind == "call" && strings.HasPrefix(g.Name, "fmt.Fprint") && g.Args[len(g.Args)-1].ContainsKey(f.Addr.Args[0].Key()) {
-											printed = true
-										}
-									}
-								}
-							}
-							if printed {
-								n++
-							}
+					if isCell, good := cellPrinted(p, i, ToPoly(xs.Idx), ToPoly(ys.Idx)); isCell {
+						if good {
+							n++
 						} else {
-							ok, why = false, "a cell other than (x, y) of the two loops is read: "+e.String()
+							ok, why = false, "a cell other than (x, y) of the two loops is read, or it is not what gets printed: "+p.Events[i].String()
 						}
 					}
 				}
@@ -1205,7 +1268,30 @@ func c08Extra(x *c08, funcs []*FuncInfo, allPaths map[*FuncInfo][]*Path) {
 					ok, why = false, fmt.Sprintf("an iteration of the inner loop prints %d cells (%s)", n, p.CondString())
 				}
 			}
-			_ = owner
+			if xFirst == 1 {
+				// the first column is printed before the inner loop, exactly when the array has a column
+				for _, p := range ps {
+					at, entered := p.LoopAt[xs.Loop.Hdr]
+					yat, inY := p.LoopAt[ys.Loop.Hdr]
+					if !entered || !inY {
+						continue
+					}
+					n := 0
+					for i := yat; i < at && i < len(p.Events); i++ {
+						if isCell, good := cellPrinted(p, i, polyConst(0), ToPoly(ys.Idx)); isCell {
+							if good {
+								n++
+							} else {
+								n = -99
+							}
+						}
+					}
+					hasCol := x.boundsOf(p, owner).gt0(ToPoly(Wt))
+					if (hasCol && n != 1) || (!hasCol && n != 0) {
+						ok, why = false, "the first column is not printed exactly when width > 0 before the loop over the remaining columns"
+					}
+				}
+			}
 		}
 		R.Decide(ok, "string-cells", fi.Name, "cells", c.pos(fi), "for y in [0,height), x in [0,width): prints cell (x, y) exactly once", why)
 	}
